@@ -112,6 +112,11 @@ def guarded_refill_needs_empty(prog, f, rule, cons=None):
                     base = base.value
                 if isinstance(base, ast.Name) and src(x.body[0].value) in src(x.test):
                     tgt = base.id
+                    # a local bound to the dict of a container (dct = data.dct) stands for that container
+                    for a_ in walk_no_nested(f.node):
+                        if isinstance(a_, ast.Assign) and len(a_.targets) == 1 and isinstance(a_.targets[0], ast.Name) and a_.targets[0].id == tgt \
+                                and isinstance(a_.value, ast.Attribute) and a_.value.attr == 'dct' and isinstance(a_.value.value, ast.Name):
+                            tgt = a_.value.value.id
         if tgt is None:
             continue
         if cfg is None:
@@ -128,6 +133,14 @@ def guarded_refill_needs_empty(prog, f, rule, cons=None):
                 for x in ast.walk(h):
                     if isinstance(x, ast.Call) and isinstance(x.func, ast.Attribute) and x.func.attr == 'clear' and src(x.func.value) == tgt:
                         return True
+                    if isinstance(x, ast.Assign) and isinstance(x.value, (ast.Tuple, ast.List)):
+                        # a, b = (fresh, other): element-wise
+                        for tg_ in x.targets:
+                            if isinstance(tg_, (ast.Tuple, ast.List)) and len(tg_.elts) == len(x.value.elts):
+                                for t_, v_ in zip(tg_.elts, x.value.elts):
+                                    if isinstance(t_, ast.Name) and t_.id == tgt and isinstance(v_, ast.Call) \
+                                            and re.search(r'(from_size|from_shape|blank|SparseVector|SparseArray|dict)$', src(v_.func)):
+                                        return True
                     if isinstance(x, ast.Assign):
                         names = [t.id for t in x.targets if isinstance(t, ast.Name)]
                         if tgt in names and isinstance(x.value, ast.Call) and re.search(r'(from_size|from_shape|blank|SparseVector|SparseArray|dict)$', src(x.value.func)):
